@@ -352,7 +352,7 @@ func main() {
 	c.Rule = "one case = one interleaving of the relay's threads (server receive loop, per-session init/downlink and uplink), N harness clients, echo targets and the resolver, for a scenario {server protocol, batch mode, IP/domain targets, sessions, datagrams per session, garbage, client address change}; distinct = distinct observation record"
 	c.Assumptions = []string{"real loopback sockets; a blocking read is enabled only when poll() reports a queued datagram, deadlines are virtual; loopback delivery is synchronous with sendto (measured)", "outgoing client is the direct client (upstream proxy clients are covered at the packer level by C05)", "SOCKS5 server is driven at the UDP level (the TCP association is not part of the UDP relay service)", "delay-bounded exploration; bound reported per scenario"}
 	params := family(c)
-	for i, r := range harness.ExploreBatch("udp", params, harness.Pick(c, 1, 2), harness.Pick(c, 25*time.Second, 15*time.Minute), true) {
+	for i, r := range harness.ExploreBatch("udp", params, harness.Pick(c, 1, 2), harness.Pick(c, 25*time.Second, 3*time.Minute), true) {
 		if i%7 == 0 {
 			c.Sample(map[string]any{"scenario": r.Param, "executions": r.Stats.Execs, "observations": len(r.Stats.Observations), "bound": r.Stats.BoundCompleted})
 		}
